@@ -6,7 +6,7 @@ import re
 from ..facts import mname, term_callee
 from ..effects import (dispatch_table, arm_blocks, enumerate_chains, fn_effects, resolve_param_item, Effect,
                        collect_effects, CONFIG_CLASS_MSGS, CONFIG_CLASS_CALLS, MSG_EFFECT)
-from ..guards import (EqGuard, HelperGuard, AnyGuard, is_sender, is_self_addr, is_loaded, is_query_field,
+from ..guards import (BoolVarGuard, EqGuard, HelperGuard, AnyGuard, is_sender, is_self_addr, is_loaded, is_query_field,
                       site_guarded, ok_return_blocks, origins_at, resolve, root_param_is)
 from ..mir import Origin
 
@@ -227,6 +227,8 @@ def run(ctx):
     ctx.floor("C16-guard", "privileged (variant, effect) obligations", priv_obligations, 40)
     check_guard_helpers(ctx, model)
     check_token(ctx, model)
+    check_hook_authorisation(ctx, model)
+    check_owner_transfer(ctx, model)
 
 
 def closure_update_guarded(model, chain, e, spec):
@@ -282,3 +284,87 @@ def check_token(ctx, model):
     effs = [e for e in fn_effects(model, path) if e.kind in ("write", "msg")]
     ctx.ob("C16-token", path, ok and not effs,
            "forwards to cw20_base::contract::execute; own effects: %s" % effs, v.where())
+
+
+def check_hook_authorisation(ctx, model):
+    """cw20 `Receive` hooks: the token contract calling the hook must be the right one -- a pool asset token for
+    Swap, the LP token for WithdrawLiquidity / vault Withdraw -- otherwise anybody's worthless cw20 could fake a
+    deposit or a burn."""
+    from ..effects import dispatch_on_enum, arm_blocks, collect_effects
+    is_pool_token = lambda os_: bool(os_) and all(o.proj and o.proj[-1] == "contract_addr" and "#Token" in o.proj and
+                                                   (o.kind == "call" and o.a.endswith("query_pools") or "info" in o.proj) for o in os_)
+    rows = []
+    for crate, info_item, enum in (("terraswap_pair", "PAIR_INFO", "pool_network::pair::Cw20HookMsg"), ("stableswap_3pool", "TRIO_INFO", "pool_network::trio::Cw20HookMsg")):
+        lp = lambda os_, info_item=info_item: bool(os_) and all(o.kind == "load" and o.a.endswith("::state::%s" % info_item) and
+                                                                  tuple(o.proj) == ("liquidity_token", "#Token", "contract_addr") for o in os_)
+        rows.append((crate, "%s::commands::receive_cw20" % crate, enum, {
+            "Swap": BoolVarGuard("sender is a pool asset token", is_sender(model), is_pool_token),
+            "WithdrawLiquidity": EqGuard("sender==LP token", is_sender(model), lp)}))
+    for crate, recv, enum, specs in rows:
+        v = ctx.view(recv, "C16-hook")
+        if v is None:
+            continue
+        hd = dispatch_on_enum(v, enum)
+        if not hd:
+            ctx.missing("C16-hook", "Cw20HookMsg dispatch in %s" % recv)
+            continue
+        hsb, _, htable = hd
+        root = "%s::contract::execute" % crate
+        calls = [b for b, c, k in model.callees(root) if c == recv]
+        prefix = ((root, calls[0], "call"),) if calls else ()
+        for var, spec in sorted(specs.items()):
+            if var not in htable:
+                ctx.missing("C16-hook", "%s Cw20HookMsg::%s" % (crate, var))
+                continue
+            hab = arm_blocks(v, htable[var], hsb)
+            effects = collect_effects(model, recv, hab, prefix=prefix)
+            bad = []
+            for ch, e, it in effects:
+                ok, why = site_guarded(model, ch, e.fn, e.block, spec)
+                if not ok:
+                    bad.append("%s@%s" % (it.split("::")[-1], e.fn.split("::")[-1]))
+            ctx.ob("C16-hook", "%s|Cw20HookMsg::%s|token-authorised" % (crate, var), bool(effects) and not bad,
+                   "%d effects; not dominated by '%s': %s" % (len(effects), spec.name, sorted(set(bad))), v.where(htable[var]))
+    # vault
+    recv = "vault::execute::receive::receive"
+    v = ctx.view(recv, "C16-hook")
+    if v is not None:
+        lp = lambda os_: bool(os_) and all(o.kind == "load" and o.a.endswith("vault::state::CONFIG") and tuple(o.proj) == ("lp_asset", "#Token", "contract_addr") for o in os_)
+        spec = EqGuard("sender==LP token", is_sender(model), lp)
+        root = "vault::contract::execute"
+        calls = [b for b, c, k in model.callees(root) if c == recv]
+        prefix = ((root, calls[0], "call"),) if calls else ()
+        effects = collect_effects(model, recv, None, prefix=prefix)
+        bad = [it for ch, e, it in effects if not site_guarded(model, ch, e.fn, e.block, spec)[0]]
+        ctx.ob("C16-hook", "vault|Cw20HookMsg::Withdraw|token-authorised", bool(effects) and not bad,
+               "%d effects; not dominated by '%s': %s" % (len(effects), spec.name, sorted(set(bad))), v.where())
+
+
+def check_owner_transfer(ctx, model):
+    """After an ownership transfer the new owner is the address named in the request: every assignment to CONFIG.owner
+    in an UpdateConfig handler takes the request's owner field (validated), nothing else."""
+    from ..dataflow import field_sources
+    from .C18 import saves_of
+    rows = [("terraswap_pair", "terraswap_pair::commands::update_config"), ("stableswap_3pool", "stableswap_3pool::commands::update_config"),
+            ("vault", "vault::execute::update_config::update_config"), ("fee_collector", "fee_collector::commands::update_config"),
+            ("fee_distributor", "fee_distributor::commands::update_config"), ("whale_lair", "whale_lair::commands::update_config"),
+            ("frontend_helper", "frontend_helper::contract::execute"), ("terraswap_factory", "terraswap_factory::commands::update_config"),
+            ("incentive_factory", "incentive_factory::execute::update_config::update_config")]
+    n = 0
+    for crate, p in rows:
+        v = ctx.view(p, "C16-owner-transfer")
+        if v is None:
+            continue
+        for sb, t in saves_of(v, "%s::state::CONFIG" % crate):
+            srcs = [s for s in field_sources(v, t["args"][2], ("owner",), v.at_term(sb)) if s.kind in ("assign", "partial", "agg")]
+            if not srcs:
+                continue
+            for s_ in srcs:
+                n += 1
+                os_ = v.origins_of_operand(s_.operand, at=(s_.block, s_.idx)) if s_.operand else set()
+                ok = bool(os_) and all(o.kind == "param" and "MessageInfo" not in v.local_ty(o.a) and "Env" not in v.local_ty(o.a) and
+                                       (not o.proj or o.proj[-1] in ("owner", "new_owner")) for o in os_)
+                names = {(v.var_name(o.a) or "") for o in os_ if o.kind == "param"}
+                ok = ok and all(("owner" in nme) or nme in ("msg", "params", "") for nme in names)
+                ctx.ob("C16-owner-transfer", "%s|owner" % p, ok, "CONFIG.owner := %s (must be the request's owner field)" % sorted(map(repr, os_)), v.where(s_.block))
+    ctx.floor("C16-owner-transfer", "owner assignments in UpdateConfig handlers", n, 7)
